@@ -402,4 +402,77 @@ def set_d (dest : Nat) (s : Bool) (e f : Nat) (h : Heap) : Heap :=
   let q := setDVal s e f
   setDen (setNum h dest q.num) dest q.den
 
+
+/-! ### mpq/set_f.c -/
+
+/-- strip low zero limbs of a non-zero magnitude (MPN_STRIP_LOW_ZEROS_NOT_ZERO, set_f.c:46-47):
+    returns the stripped magnitude and the number of limbs removed -/
+def stripLow (m : Nat) (fuel : Nat) : Nat × Nat :=
+  match fuel with
+  | 0 => (m, 0)
+  | fuel + 1 => if m % B = 0 ∧ m ≠ 0 then let (m', k) := stripLow (m / B) fuel; (m', k + 1) else (m, 0)
+
+/-- `mpq_set_f` (set_f.c:27-101) at value level.  The mpf operand is `±F * B^(fexp - abs_fsize)` with
+    `abs_fsize = limbs F` (mpf keeps a non-zero top limb; low limbs may be zero). -/
+def setFVal (neg : Bool) (F : Nat) (fexp : Int) : Q :=
+  if F = 0 then ⟨0, 1⟩ else                                -- set_f.c:36-43
+  let abs_fsize0 := limbs F
+  let (F, k) := stripLow F abs_fsize0                      -- :46-47
+  let abs_fsize : Int := ((abs_fsize0 - k : Nat) : Int)
+  let flow := F % B
+  let sgn : Int → Int := fun v => if neg then -v else v
+  if fexp ≥ abs_fsize then                                 -- :49
+    ⟨sgn ((F * B ^ (fexp - abs_fsize).toNat : Nat) : Int), 1⟩   -- :54-61
+  else
+    let den_size := (abs_fsize - fexp).toNat               -- :69
+    if flow % 2 = 1 then                                   -- :75
+      ⟨sgn (F : Int), ((B ^ den_size : Nat) : Int)⟩        -- :79-81, :98-99
+    else
+      let den_size := den_size - 1                         -- :88
+      let shift := ctz flow                                -- :89
+      let num := F / 2 ^ shift                             -- :91-92
+      let den := B ^ den_size * 2 ^ (64 - shift)           -- :94-95  GMP_LIMB_HIGHBIT >> (shift-1)
+      ⟨sgn (num : Int), (den : Int)⟩                       -- :98-99
+
+def set_f (dest : Nat) (neg : Bool) (F : Nat) (fexp : Int) (h : Heap) : Heap :=
+  let q := setFVal neg F fexp
+  setDen (setNum h dest q.num) dest q.den
+
+/-! ### mpq/get_d.c -/
+
+/-- `mpn_get_d` (mpn/generic/get_d.c, IEEE ONE_LIMB path) at value level: the double, as its 64-bit
+    pattern, nearest to `±q * 2^exp` toward zero; `q ≠ 0`.  Overflow gives ±infinity, values below the
+    smallest denormal give +0.0 (the sign is dropped there, get_d.c returns the constant 0.0). -/
+def getDBits (neg : Bool) (q : Nat) (exp : Int) : Nat :=
+  let nb := bits q
+  let exp : Int := exp + ((nb : Nat) : Int) - 1            -- exponent of the leading bit (get_d.c: exp += 64*size; exp -= lshift + 1)
+  let m0 := q * 2 ^ 53 / 2 ^ nb                            -- top 53 bits: (m0 << lshift | m1 >> rshift) >> 11
+  let s := if neg then 2 ^ 63 else 0
+  if exp ≥ 1024 then s + 2047 * 2 ^ 52                     -- ieee_infinity
+  else if exp ≤ -1023 then
+    if exp ≤ -1075 then 0                                  -- return 0.0
+    else
+      let rshift := (-1022 - exp).toNat
+      s + m0 / 2 ^ rshift                                  -- denormal: exponent field 0
+  else s + (exp + 1023).toNat * 2 ^ 52 + m0 % 2 ^ 52
+
+/-- `mpq_get_d` (get_d.c:95-167): pad or chop the numerator so that the quotient has N_QLIMBS+1 = 3
+    (or 2) limbs, truncating division, then `mpn_get_d`. -/
+def get_d (src : Nat) (h : Heap) : Nat :=
+  let n := (h src).num
+  let d := (h src).den.natAbs
+  if n = 0 then 0 else                                     -- get_d.c:114-115
+  let nsize : Int := (limbs n.natAbs : Nat)                -- :118
+  let dsize : Int := (limbs d : Nat)                       -- :119
+  let prospective_qsize := nsize - dsize + 1               -- :123
+  let qsize : Int := 3                                     -- :124  N_QLIMBS + 1
+  let zeros := qsize - prospective_qsize                   -- :126
+  let exp := -zeros * 64                                   -- :127
+  let chop := max (-zeros) 0                               -- :129
+  let np := n.natAbs / B ^ chop.toNat                      -- :130-131
+  let zeros := zeros + chop                                -- :132
+  let np := np * B ^ zeros.toNat                           -- :150-156
+  let q := np / d                                          -- :159 mpn_tdiv_qr
+  getDBits (n < 0) q exp                                   -- :162-164
+
 end Mpir.Mpq
